@@ -142,6 +142,15 @@ class Block:
         self.label = d.get("label")
         self.ev = d["ev"]
         self.term = d.get("term")
+        if self.term and "cond" in self.term and self.term.get("kind") != "BinaryOperator":
+            # clang reports the whole `a && b` / `a || b` as the condition of the block that ends the if/while/for,
+            # but that block only evaluates the right-most operand (the others have their own blocks)
+            t = self.term["cond"].get("tree")
+            full = t
+            while isinstance(t, list) and t and t[0] == "bin" and t[1] in ("&&", "||"):
+                t = t[3]
+            if t is not full:
+                self.term["cond"] = dict(self.term["cond"], tree=t, full_tree=full)
         self.preds = []
 
     def succs(self):
